@@ -770,6 +770,24 @@ impl OverlayInode {
         }
     }
 
+    // Whether a lower layer of this directory has a visible entry called `name`. Such an entry
+    // is not part of the child's `real_inodes` when a non-directory, a whiteout or an opaque
+    // directory in a higher layer shadows it, but it shows up again as soon as that is gone.
+    pub fn lower_layers_have(&self, ctx: &Context, name: &str) -> Result<bool> {
+        for ri in self.real_inodes.lock().unwrap().iter() {
+            if !ri.in_upper_layer {
+                // The topmost lower layer that knows the name decides.
+                if let Some(child) = ri.lookup_child(ctx, name)? {
+                    return Ok(!child.whiteout);
+                }
+            }
+            if ri.opaque {
+                break;
+            }
+        }
+        Ok(false)
+    }
+
     pub fn first_layer_inode(&self) -> (Arc<BoxedLayer>, bool, u64) {
         let all_inodes = self.real_inodes.lock().unwrap();
         let first = all_inodes.first();
@@ -1252,8 +1270,9 @@ impl OverlayFs {
                 delete_whiteout = true;
             }
 
-            // Set opaque if child dir has lower layers.
-            if !n.upper_layer_only() {
+            // Set opaque if child dir has lower layers, also the ones that the whiteout alone
+            // has been hiding so far.
+            if !n.upper_layer_only() || parent_node.lower_layers_have(ctx, name)? {
                 set_opaque = true;
             }
         }
@@ -1892,7 +1911,9 @@ impl OverlayFs {
         let pnode = self.copy_node_up(ctx, Arc::clone(&pnode))?;
 
         if node.upper_layer_only() {
-            need_whiteout = false;
+            // Nothing of the node itself is left in the lower layers, but it may have been
+            // shadowing a lower entry of the same name, which must stay hidden.
+            need_whiteout = pnode.lower_layers_have(ctx, sname.as_str())?;
         }
 
         let mut path_removed = None;
